@@ -98,9 +98,12 @@ def sizing_sync(ctx, corr_s, corr_f, tr, ix):
             if not (pb[oid]["price"] == pb[oid]["price"] and pb[oid]["price"] > 0):
                 continue
             pp = pb[oid][side]
-            lines.append("SZFSUB %d %d %s %d %d %d" % (args[1], is_buy, eff, pp["qty"], pp["old"], pp["today_closable"]))
+            lines.append("SZFSUB %s %d %s %d %d %d" % (f2b(float(args[1])), is_buy, eff, pp["qty"], pp["old"], pp["today_closable"]))
             impl = "NONE" if not created else " ".join("%d:%s:%d" % (o["is_buy"], o["effect"], o["qty"]) for o in created)
             meta.append((corr_f, c, impl))
+            for o in created:
+                if o["qty"] == 0:
+                    ctx.witness("C15.5", {"kind": "zero_quantity_order", "api": api}, "%s%r created an order for 0 lots (%s)" % (api, args, o["effect"]), rp)
         elif api in ("order", "order_to") and args[0] in ix.fut and args[0] in pb:
             future_monitor(ctx, rp, c, created, pb[args[0]], api == "order_to")
     if not lines or not ctx.driver_ok:
@@ -185,6 +188,9 @@ def stock_monitor(ctx, rp, c, created, p, lot, ksh, price, cash, tv, rate, mult,
 def future_monitor(ctx, rp, c, created, pp, target):
     api, args = c["api"], c["args"]
     q = args[1] - ((pp["long"]["qty"] - pp["short"]["qty"]) if target else 0)
+    for o in created:
+        if o["qty"] == 0:
+            ctx.witness("C15.5", {"kind": "zero_quantity_order", "api": api}, "%s%r created an order for 0 lots (%s)" % (api, args, o["effect"]), rp)
     if not created:
         return
     rank = {"CLOSE": 0, "CLOSE_TODAY": 1, "OPEN": 2}
@@ -208,6 +214,7 @@ def future_monitor(ctx, rp, c, created, pp, target):
             rest -= today
         if rest > 0:
             want.append(("OPEN", rest))
+        want = [(e, int(x)) for e, x in want if int(x) != 0]        # every leg's lot count is truncated toward zero; an empty leg creates nothing
         got = [(o["effect"], o["qty"]) for o in created]
         # legs vetoed by validators or cut by resting orders may be missing; what IS created must be a sub-sequence with the same quantities
         it = iter(want)
@@ -338,12 +345,12 @@ def negative_cash_directed(ctx):
 def run(ctx):
     negative_cash_directed(ctx)
     corr_s = ctx.corr("stock sizing APIs", "created order (side, quantity) of every stock sizing call of real runs vs model `orderShares/orderLots/orderValue/orderTargetValue/stockOrderTo` on the same holding, closable, cash, value, price")
-    corr_f = ctx.corr("futures open/close APIs", "created legs of buy/sell open/close(+close_today) vs model `futSubmitLegs`")
+    corr_f = ctx.corr("futures open/close APIs", "created legs of buy/sell open/close(+close_today) vs model `futSubmit` (lot count truncated toward zero first)")
     corr_r = ctx.corr("_round_order_quantity", "direct calls of the real function on random quantities (incl. the 10-digit Decimal rounding region) vs model `roundOrderQty`")
     corr_d = ctx.corr("int(Decimal(a)/Decimal(b)) at prec 10", "Python's decimal module vs model `decQuot10`")
     direct(ctx, corr_r, corr_d)
     tstream.stream(ctx, ctx.n(80, 3000), None, [], extra_sync=lambda c, tr, ix: sizing_sync(c, corr_s, corr_f, tr, ix),
-                   market_opts=lambda k: {"opts": {"p_split": 0.8 if k % 2 else 0.3, "p_delist": 0.1}}, cfg_opts=lambda k: {"p_auto_switch": 0.35})
+                   market_opts=lambda k: {"opts": {"p_split": 0.8 if k % 2 else 0.3, "p_delist": 0.1}}, cfg_opts=lambda k: {"p_auto_switch": 0.35, "frac_fut": True})
 
 
 def replay(ctx, data):
